@@ -783,11 +783,91 @@ func main() {
 		b.WriteString("\n")
 	}
 	b.WriteString("end BloomVerif.Gen\n")
+	writeSinks(fset, files, *out)
 	if err := os.MkdirAll(*out, 0o755); err != nil {
 		fmt.Fprintln(os.Stderr, err)
 		os.Exit(2)
 	}
 	if err := os.WriteFile(filepath.Join(*out, "Leaf.lean"), []byte(b.String()), 0o644); err != nil {
+		fmt.Fprintln(os.Stderr, err)
+		os.Exit(2)
+	}
+}
+
+
+// writeSinks regenerates the table of every call site in the (non-test, non-verif) package sources
+// that can reach standard output or standard error, and the fact that a nil Logger defaults to the
+// discard handler (C27).
+func writeSinks(fset *token.FileSet, files []*ast.File, out string) {
+	type sink struct{ pos, what string }
+	var sinks []sink
+	discardDefault := false
+	add := func(n ast.Node, what string) {
+		p := fset.Position(n.Pos())
+		sinks = append(sinks, sink{fmt.Sprintf("%s:%d", filepath.Base(p.Filename), p.Line), what})
+	}
+	slogPkgFuncs := map[string]bool{"Debug": true, "Info": true, "Warn": true, "Error": true, "Log": true, "LogAttrs": true, "DebugContext": true,
+		"InfoContext": true, "WarnContext": true, "ErrorContext": true, "Default": true, "SetDefault": true}
+	for _, f := range files {
+		ast.Inspect(f, func(n ast.Node) bool {
+			switch v := n.(type) {
+			case *ast.CallExpr:
+				if id, ok := v.Fun.(*ast.Ident); ok && (id.Name == "print" || id.Name == "println") {
+					add(v, id.Name)
+				}
+				if sel, ok := v.Fun.(*ast.SelectorExpr); ok {
+					if pkg, ok := sel.X.(*ast.Ident); ok {
+						switch {
+						case pkg.Name == "fmt" && (sel.Sel.Name == "Print" || sel.Sel.Name == "Printf" || sel.Sel.Name == "Println"):
+							add(v, "fmt."+sel.Sel.Name)
+						case pkg.Name == "log":
+							add(v, "log."+sel.Sel.Name)
+						case pkg.Name == "slog" && slogPkgFuncs[sel.Sel.Name]:
+							add(v, "slog."+sel.Sel.Name)
+						}
+					}
+				}
+			case *ast.SelectorExpr:
+				if pkg, ok := v.X.(*ast.Ident); ok && pkg.Name == "os" && (v.Sel.Name == "Stdout" || v.Sel.Name == "Stderr") {
+					add(v, "os."+v.Sel.Name)
+				}
+			case *ast.IfStmt:
+				// if logger == nil { logger = slog.New(slog.DiscardHandler) }
+				if be, ok := v.Cond.(*ast.BinaryExpr); ok && be.Op == token.EQL {
+					x, okx := be.X.(*ast.Ident)
+					y, oky := be.Y.(*ast.Ident)
+					if okx && oky && x.Name == "logger" && y.Name == "nil" && len(v.Body.List) == 1 {
+						if as, ok := v.Body.List[0].(*ast.AssignStmt); ok && len(as.Rhs) == 1 {
+							if call, ok := as.Rhs[0].(*ast.CallExpr); ok && len(call.Args) == 1 {
+								if fn, ok := call.Fun.(*ast.SelectorExpr); ok && fn.Sel.Name == "New" {
+									if arg, ok := call.Args[0].(*ast.SelectorExpr); ok && arg.Sel.Name == "DiscardHandler" {
+										discardDefault = true
+									}
+								}
+							}
+						}
+					}
+				}
+			}
+			return true
+		})
+	}
+	var b strings.Builder
+	b.WriteString("/- GENERATED by /verif/gen/go2lean from /repo's working tree on every check run. Do not edit. -/\nnamespace BloomVerif.Gen\n\n")
+	b.WriteString("/-- every call site in the package's non-test sources that can reach stdout/stderr: (file:line, call) -/\ndef outputSinks : List (String × String) := [")
+	for i, s := range sinks {
+		if i > 0 {
+			b.WriteString(", ")
+		}
+		fmt.Fprintf(&b, "(%s, %s)", leanStr(s.pos), leanStr(s.what))
+	}
+	b.WriteString("]\n\n/-- NewBloomSearchEngine replaces a nil Logger by slog.New(slog.DiscardHandler) -/\n")
+	fmt.Fprintf(&b, "def nilLoggerIsDiscard : Bool := %v\n\nend BloomVerif.Gen\n", discardDefault)
+	if err := os.MkdirAll(out, 0o755); err != nil {
+		fmt.Fprintln(os.Stderr, err)
+		os.Exit(2)
+	}
+	if err := os.WriteFile(filepath.Join(out, "Sinks.lean"), []byte(b.String()), 0o644); err != nil {
 		fmt.Fprintln(os.Stderr, err)
 		os.Exit(2)
 	}
